@@ -871,6 +871,76 @@ def judge_hoist_last(case):
     return {"nontrivial": n > 0, "classes": ["filled:" + case["filled"], "between:" + case["between"], "driver:" + d]}
 
 
+class Unpicklable(object):
+    """a value pickle refuses (like a local function or an open file inside a context)"""
+
+    def __init__(self, how):
+        self.how = how
+
+    def __eq__(self, other):
+        return isinstance(other, Unpicklable)
+
+    def __reduce__(self):
+        import pickle
+        if self.how == "pickling_error":
+            raise pickle.PicklingError("cannot be pickled")
+        if self.how == "type_error":
+            raise TypeError("cannot pickle this object")
+        raise AttributeError("Can't pickle local object")
+
+
+@st.composite
+def unpicklable_case(draw):
+    n = draw(st.integers(1, 6))
+    return {"n": n, "k": draw(st.integers(0, n - 1)), "how": draw(st.sampled_from(["pickling_error", "type_error", "attribute_error"])),
+            "in_context": draw(st.booleans()), "driver": draw(st.sampled_from(["seq", "source", "alter_static", "alter_meta"])),
+            "m": draw(st.integers(0, 6)), "protocol": draw(st.sampled_from([None, None, 4]))}
+
+
+def judge_unpicklable(case):
+    """a flow with a value that cannot be pickled at position k: whatever the first run does with it (the documented
+    outcome is a pickle error), what it leaves on disk is not a complete flow, so no later run may replay it"""
+    n, k = case["n"], case["k"]
+    first = upstream_values(n, 1, True)
+    bad = Unpicklable(case["how"])
+    d, c = first[k]
+    first[k] = (d, dict(c, bad=bad)) if case["in_context"] else ((d, bad), c)
+
+    def mk():
+        return Cache("cache_U.pkl") if case["protocol"] is None else Cache("cache_U.pkl", protocol=case["protocol"])
+    post = lambda v: ("p", v)      # noqa
+    with instr.Sandbox("lena-c18u-"):
+        src = CountingSource(list(first))
+        out1, exc1 = [], None
+        try:
+            for v in Sequence(mk(), post).run(src()):
+                out1.append(v)
+        except Exception as e:   # noqa
+            exc1 = type(e).__name__
+        if out1 != [("p", v) for v in first[:len(out1)]]:
+            raise Violation("first-run-alters-the-flow", "%s: %s" % (case, short(out1, 300)))
+        if exc1 is None and len(out1) != n:
+            raise Violation("first-run-alters-the-flow", "%s: the first run ended after %d of %d values without an error" % (case, len(out1), n))
+        second = upstream_values(case["m"], 2, True)
+        src2 = CountingSource(copy.deepcopy(second))
+        els = [mk(), post]
+        dr = case["driver"]
+        if dr == "seq":
+            it = Sequence(*els).run(src2())
+        elif dr == "source":
+            it = Source(src2, *els)()
+        else:
+            new = Cache.alter_sequence(Sequence(*els)) if dr == "alter_static" else lena.core.alter_sequence(Sequence(*els))
+            it = new() if isinstance(new, Source) else new.run(src2())
+        got = list(it)
+        exp = [("p", v) for v in second]
+        if got != exp:
+            raise Violation("stale-or-truncated-cache-replayed",
+                            "%s: the first run over %d values (value %d cannot be pickled) ended with %s after %d values; the next run over %d new values yields %s, expected the new flow %s" % (
+                                case, n, k, exc1 or "no error", len(out1), case["m"], short(got, 300), short(exp, 300)))
+    return {"nontrivial": k > 0, "classes": ["first-run:" + (exc1 or "no-error"), "driver:" + dr, "how:" + case["how"]]}
+
+
 CHECKS = [
     Check("histories", judge_history, strategy=lambda tier: history_case() if tier != "thorough" else st.one_of(history_case(), history_case(big=True)), quick=1500, thorough=50000,
           rule="pipelines pre* Cache [mid* Cache] post* x flows 0-8 (bare / fresh context / one shared context object updated in place / contexts large enough to cross file-buffer boundaries) x histories of 1-6 operations "
@@ -881,6 +951,10 @@ CHECKS = [
           rule="a filled Cache given as a bare branch of a Split (alone, before or after a per-value branch, two caches), which Split hoists into a Source through alter_sequence when it is built; "
                "the same Split run 1-3 times over flows of 0-5 values with bufsize 1,2,3,None,1000: every run yields the stored flow once (at the first block) and the other branch's results per block. "
                "Non-trivial = more than one run and a non-empty stored flow."),
+    Check("unpicklable", judge_unpicklable, strategy=lambda tier: unpicklable_case(), quick=300, thorough=5000,
+          rule="a first run over 1-6 values of which value k cannot be pickled (PicklingError / TypeError / AttributeError from pickle; in the data or in the context), consumed to the end or to its error; "
+               "then a run of fresh elements over a new upstream (Sequence, Source, Cache.alter_sequence, lena.core.alter_sequence): it must yield the new flow - the values stored before the failure are no complete flow. "
+               "Non-trivial = k > 0 (a non-empty prefix could have been stored)."),
     Check("hoist_last", judge_hoist_last, strategy=lambda tier: hoist_last_case(), quick=400, thorough=6000,
           rule="two caches with an eagerly run fill/compute element and / or a map between them, both or one of them filled by a complete first run; the sequence is then altered "
                "(Cache.alter_sequence, lena.core.alter_sequence, nested sequences, the branch of a single-block Split) and run over another upstream: the stored flow is replayed, "
